@@ -1,66 +1,130 @@
 package gen
 
+func tmplsWhere(f func(Tmpl) bool) []Tmpl {
+	var ts []Tmpl
+	for _, t := range AllTmpls {
+		if f(t) {
+			ts = append(ts, t)
+		}
+	}
+	return ts
+}
+
 // Profiles: one per property family.  Weights are tuned so that the construct the
 // property is about is frequent and reached in interesting configurations.
 func ProfileByName(name string) *Profile {
 	p := BaseProfile(name)
+	p.NoFFFDLit = name != "c01" && name != "utf8" && name != "base"
 	switch name {
 	case "base":
-	case "utf8":
+	case "utf8": // C17
 		p.Invalid = 70
 		p.AllowInv = 50
 		p.W[KAny] = 20
 		p.W[KCls] = 20
-		p.Blocks = true
 		p.MaxRules = 2
-	case "state":
+		p.NoStaleCtx = true
+	case "c01": // PEG matching and value shapes
+		p.NoStaleCtx = true
+		p.MemoPct = 0
+		p.W[KAlt] = 18
+		p.W[KStar], p.W[KPlus], p.W[KOpt] = 8, 7, 8
+		p.W[KAnd], p.W[KNot] = 5, 6
+		p.EntryPct = 15
+		p.Inputs = 5
+	case "c02": // code-block context
+		p.MemoPct = 0
+		p.W[KAct] = 16
+		p.W[KAndC], p.W[KNotC] = 6, 6
+		p.W[KSeq] = 24
+		p.State = true
+		p.W[KStC] = 5
+		p.Throw = true
+		p.W[KRec], p.W[KThrow] = 3, 4
+		p.Invalid = 15
+	case "c05", "state": // state store
 		p.State = true
 		p.W[KStC] = 14
 		p.W[KAlt] = 20
 		p.W[KAnd], p.W[KNot] = 6, 6
+		p.W[KAct] = 10
 		p.MemoPct = 0
-	case "errors":
-		p.Errors = 35
+		p.NoStaleCtx = true
+		p.Tmpls = tmplsWhere(func(t Tmpl) bool { return t.HasState() })
+	case "c06", "memo": // Memoize / Debug / Statistics
+		p.MemoPct = 50
+		p.DebugPct = 15
+		p.StatsPct = 30
+		p.W[KOpt] = 12
+		p.W[KRef] = 22
+		p.W[KAlt] = 18
+		p.NoStaleCtx = true
+		p.BudgetPct = 0
+		p.Tmpls = tmplsWhere(func(t Tmpl) bool { return !t.Opt && !t.LR })
+	case "c08", "lr": // left recursion
+		p.LR = true
+		p.MaxRules = 3
+		p.Tmpls = tmplsWhere(func(t Tmpl) bool { return t.LR })
+		p.MemoPct = 50
+		p.NoStaleCtx = true
+	case "c10": // -optimize-parser
+		p.NoStaleCtx = true
+		p.MemoPct = 0
+		p.State = true
+		p.W[KStC] = 5
+		p.Errors = 15
+		p.Throw = true
+		p.W[KRec], p.W[KThrow] = 3, 4
+		p.Tmpls = tmplsWhere(func(t Tmpl) bool { return !t.Opt })
+	case "c11", "errors": // error contract
+		p.Errors = 40
 		p.Panics = 12
 		p.NoRecover = 30
 		p.State = true
 		p.W[KStC] = 4
-	case "throw":
+		p.W[KAct] = 14
+		p.MemoPct = 0
+		p.BadRefPct = 5
+		p.NoStaleCtx = true
+	case "c12": // farthest failure
+		p.Blocks = false
+		p.MemoPct = 0
+		p.W[KNot] = 12
+		p.W[KAnd] = 6
+		p.W[KAlt] = 22
+		p.W[KLit] = 36
+		p.W[KCls] = 18
+		p.Invalid = 0
+		p.AllowInv = 100
+		p.Inputs = 6
+	case "c14", "throw": // throw / recover
 		p.Throw = true
-		p.W[KRec] = 10
-		p.W[KThrow] = 12
-	case "lr":
-		p.LR = true
-		p.MaxRules = 3
-		var ts []Tmpl
-		for _, t := range AllTmpls {
-			if t.LR {
-				ts = append(ts, t)
-			}
-		}
-		p.Tmpls = ts
-		p.MemoPct = 50
-	case "memo":
-		p.MemoPct = 100
-		p.W[KOpt] = 12
-		p.W[KRef] = 20
-		var ts []Tmpl
-		for _, t := range AllTmpls {
-			if !t.Opt {
-				ts = append(ts, t)
-			}
-		}
-		p.Tmpls = ts
-	case "class":
+		p.W[KRec] = 12
+		p.W[KThrow] = 14
+		p.W[KRef] = 18
+		p.MemoPct = 0
+		p.NoStaleCtx = true
+	case "c16", "budget": // MaxExpressions
+		p.BudgetPct = 60
+		p.W[KStar] = 14
+		p.W[KPlus] = 10
+		p.MemoPct = 40
+		p.NoStaleCtx = true
+	case "class": // C15 / case folding
 		p.W[KCls] = 60
 		p.W[KLit] = 10
 		p.IgnoreCase = 40
 		p.FoldSafe = false
 		p.MaxRules = 2
-	case "budget":
-		p.BudgetPct = 60
-		p.W[KStar] = 14
-		p.W[KPlus] = 10
+		p.Blocks = false
+		p.MemoPct = 0
+		p.Tmpls = tmplsWhere(func(t Tmpl) bool { return !t.BL }) // table vs general procedure is C15's business
+	case "c18": // concurrency: state-using grammars, many inputs per grammar
+		p.State = true
+		p.W[KStC] = 8
+		p.Inputs = 8
+		p.MemoPct = 40
+		p.NoStaleCtx = true
 	}
 	return p
 }
